@@ -11,6 +11,8 @@ import (
 	"os"
 	"sort"
 	"strings"
+	"sync"
+	"sync/atomic"
 	"time"
 
 	"github.com/hack-pad/hackpadfs"
@@ -177,12 +179,53 @@ func Class(err error) string {
 	return "other"
 }
 
+// Returned errors belong to the caller: the library must not change them afterwards (a later call rewriting a shared
+// error object changes what an earlier caller holds). With RecordErrors on, every error a step returned is kept with
+// its text at that moment; ChangedErrors reports the ones that read differently now.
+var (
+	RecordErrors atomic.Bool
+	errLogMu     sync.Mutex
+	errLog       []heldErr
+)
+
+type heldErr struct {
+	err  error
+	text string
+	step string
+}
+
+func holdErr(err error, step string) {
+	errLogMu.Lock()
+	if len(errLog) >= 4096 {
+		errLog = errLog[2048:]
+	}
+	errLog = append(errLog, heldErr{err, err.Error(), step})
+	errLogMu.Unlock()
+}
+
+// ChangedErrors returns "step: text then -> text now" for every held error whose text changed, and forgets all.
+func ChangedErrors() []string {
+	errLogMu.Lock()
+	defer errLogMu.Unlock()
+	var out []string
+	for _, h := range errLog {
+		if now := h.err.Error(); now != h.text {
+			out = append(out, fmt.Sprintf("%s returned %q, which now reads %q", h.step, h.text, now))
+		}
+	}
+	errLog = errLog[:0]
+	return out
+}
+
 func fillErr(r *Result, err error) {
 	r.Err = Class(err)
 	if err == nil {
 		return
 	}
 	r.ErrText = err.Error()
+	if RecordErrors.Load() {
+		holdErr(err, "a call")
+	}
 	if len(r.ErrText) > 160 {
 		r.ErrText = r.ErrText[:160]
 	}
